@@ -907,7 +907,8 @@ class Sym:
                 name = t.get("resolved") or t.get("callee") or "?"
                 if "callee" not in t:
                     name = ("indirect", self.operand(t["callee_op"], depth + 1, vis)) if "callee_op" in t else "?"
-                vals.append(("call", name, tuple(self.operand(a, depth + 1, vis) for a in t["args"]), t.get("callee")))
+                cv = ("call", name, tuple(self.operand(a, depth + 1, vis) for a in t["args"]), t.get("callee"))
+                vals.append(self._beta(cv, depth))
             else:
                 vals.append(self.rvalue(d[3]["rv"], depth + 1, vis))
         if not vals:
@@ -924,6 +925,44 @@ class Sym:
         if not contains_cycle(r):
             self._memo[l] = r
         return r
+
+    def _beta(self, cv, depth=0):
+        """`op(x)` where op is a closure literal known in this crate: the closure's result with x substituted."""
+        if depth > 40 or not isinstance(cv[3], str) or not cv[3].endswith(("Fn::call", "FnMut::call_mut", "FnOnce::call_once")) or len(cv[2]) != 2:
+            return cv
+        f = strip_sym(cv[2][0])
+        if not (isinstance(f, tuple) and f and f[0] == "agg" and f[1] == "closure"):
+            return cv
+        cf = self.fn.crate.by_path.get(f[5])
+        if cf is None or cf.j.get("mir") is None:
+            return cv
+        tup = strip_sym(cv[2][1])
+        if not (tup[0] == "agg" and tup[1] == "tuple"):
+            return cv
+        try:
+            res = Sym(cf).local(0)
+        except RecursionError:
+            return cv
+        if contains_cycle(res):
+            return cv
+        actual = tup[3]
+        caps = f[3]
+
+        def sub(x):
+            if not isinstance(x, tuple) or not x:
+                return x
+            if x[0] == "arg" and 1 <= x[1] <= len(actual):
+                return actual[x[1] - 1]
+            if x[0] == "capture":
+                # already expressed in the creating function's terms: not the closure's own parameters
+                if isinstance(x[1], int) and x[1] < len(caps) and x[2] == ("unknown", "capture"):
+                    return caps[x[1]]
+                return x
+            if x[0] == "const":
+                return x
+            return tuple(sub(y) if isinstance(y, tuple) else y for y in x)
+
+        return sub(res)
 
     def rvalue(self, rv, depth, vis):
         k = rv["k"]
